@@ -5,7 +5,10 @@
    The suffix classes of the two positional paths are computed HERE by the model (`inputIsNative`,
    `outputIsNative`), the harness only sends the path strings. -/
 import MofunModel.Drive.Codec
+import MofunModel.Drive.ReplaceOps
 import MofunModel.Model.Cli
+import MofunModel.Model.CliRun
+import MofunModel.Model.CliArgs
 
 open Lean Mofun.Codec Mofun.Cli
 
@@ -82,8 +85,118 @@ def callToJson : Call → Json
   | .save p => callJ "save" [("path", Json.str p)]
   | .saveAse p => callJ "saveAse" [("path", Json.str p)]
 
+/-! ### op "cli_run": the plan executed over the models (Model/CliRun.lean)
+
+   {"opts": {…}, "files": {path: atoms | {"err": s}}, "ase": {path: atoms}, "dump": {path: [[q,q,q]…]},
+    "charges": {path: [q…]}, "search": [{"idx","pos","quat"}…], "sample": [n…] | null, "pair_text": {key: text}}
+   → {"ok": {"written": {…}, "reported": [[n…]…] | null}} | {"err": s}
+   `run` = runPlan, `api` = apiPipeline (both are returned; the theorems say they agree) -/
+
+private def lookupObj (j : Json) (k : String) : Option Json :=
+  match j.getObjVal? k with
+  | .ok v => some v
+  | .error _ => none
+
+private def errOfString (s : String) : Err :=
+  if s = "error:nocell" then .nocell else if s = "error:index" then .index else if s = "overlap" then .overlap
+  else if s = "domain" then .domain else .reject s
+
+private def loadFrom (tbl : Json) (path : String) : Except Err Atoms :=
+  match lookupObj tbl path with
+  | none => .error (.reject "no such file")
+  | some v =>
+    match v.getObjVal? "err" with
+    | .ok e => .error (errOfString (e.getStr?.toOption.getD "error"))
+    | .error _ =>
+      match parseAtoms v with
+      | .ok a => .ok a
+      | .error _ => .error (.reject "unparsable")
+
+def parseEnv (j : Json) : P Env := do
+  let files := fieldD j "files" (Json.mkObj [])
+  let ase := fieldD j "ase" (Json.mkObj [])
+  let dump := fieldD j "dump" (Json.mkObj [])
+  let charges := fieldD j "charges" (Json.mkObj [])
+  let pairText := fieldD j "pair_text" (Json.mkObj [])
+  let found ← (← arr (fieldD j "search" (Json.arr #[]))).mapM parsePlaced
+  let sampleJ := fieldD j "sample" Json.null
+  let sample ← if sampleJ.isNull then pure [] else parseNatList sampleJ
+  pure {
+    loadLmpdat := loadFrom files, loadCml := loadFrom files, loadCif := loadFrom files,
+    aseRead := loadFrom ase,
+    dumpPositions := fun p => match lookupObj dump p with
+      | none => .error (.reject "no such file")
+      | some v => match (do (← arr v).mapM parseVec3 : P (List Vec3)) with
+        | .ok l => .ok l
+        | .error _ => .error (.reject "unparsable"),
+    chargeValues := fun p => match lookupObj charges p with
+      | none => .error (.reject "no such file")
+      | some v => match parseRatList v with
+        | .ok l => .ok l
+        | .error _ => .error (.reject "unparsable"),
+    search := fun _ _ _ _ => found,
+    sample := fun _ _ => sample,
+    pairText := fun k => match lookupObj pairText k with
+      | some (Json.str t) => t
+      | _ => k }
+
+def writtenToJson : Written → Json
+  | .native p fmt a =>
+    Json.mkObj [("kind", Json.str "native"), ("path", Json.str p),
+                ("fmt", Json.str (match fmt with | .lmpdat => "lmpdat" | .mol => "mol" | .cif => "cif")),
+                ("atoms", atomsToJson a)]
+  | .ase p els pos cell =>
+    Json.mkObj [("kind", Json.str "ase"), ("path", Json.str p), ("elems", strs els),
+                ("pos", Json.arr (pos.map vec3ToJson).toArray), ("cell", cellToJson cell)]
+
+def outputToJson : Except Err Output → Json
+  | .error e => Json.mkObj [("err", Json.str e.toString)]
+  | .ok o => Json.mkObj [("ok", Json.mkObj [("written", writtenToJson o.written),
+      ("reported", match o.reported with
+        | none => Json.null
+        | some ms => Json.arr (ms.map nats).toArray)])]
+
+/-! ### op "cli_parse": argv ↦ Options (Model/CliArgs.lean) -/
+
+private def optStrJ : Option String → Json
+  | none => Json.null
+  | some s => Json.str s
+
+def optionsToJson (o : Cli.Options) : Json :=
+  Json.mkObj [("input", Json.str o.input), ("output", Json.str o.output), ("find", optStrJ o.findPath),
+    ("replace", optStrJ o.replacePath), ("fraction", ratToJson o.replaceFraction), ("atol", ratToJson o.atol),
+    ("ap1", optIntJ o.hints.axisp1), ("ap2", optIntJ o.hints.axisp2), ("op", optIntJ o.hints.opoint),
+    ("dump", optStrJ o.dumpPath), ("extract_uc", optStrJ o.extractUc), ("chargefile", optStrJ o.chargefile),
+    ("replicate", match o.replicate with
+      | none => Json.null
+      | some (a, b, c) => nats [a, b, c]),
+    ("mic", match o.mic with
+      | none => Json.null
+      | some m => ratToJson m),
+    ("framework_element", optStrJ o.frameworkElement), ("pp", Json.bool o.pp),
+    ("input_native", Json.bool o.inputNative), ("output_native", Json.bool o.outputNative)]
+
+def argErrName : ArgErr → String
+  | .noSuchOption => "NoSuchOption"
+  | .missingValue => "BadOptionUsage"
+  | .noValueAllowed => "BadOptionUsage"
+  | .badValue => "BadParameter"
+  | .missingArgument => "MissingParameter"
+  | .extraArgument => "UsageError"
+  | .help => "help"
+  | .outOfModel => "out-of-model"
+
 def handleCli (op : String) (j : Json) : Option (P Json) :=
   match op with
+  | "cli_run" => some do
+      let o ← parseCliOptions (← field j "opts")
+      let env ← parseEnv j
+      pure (Json.mkObj [("run", outputToJson (runPlan env o)), ("api", outputToJson (apiPipeline env o))])
+  | "cli_parse" => some do
+      let argv ← parseStrList (← field j "argv")
+      match parseArgs argv with
+      | .ok o => pure (Json.mkObj [("ok", optionsToJson o)])
+      | .error e => pure (Json.mkObj [("err", Json.str (argErrName e))])
   | "cli_plan" => some do
       let o ← parseCliOptions (← field j "opts")
       let c ← parseCellInfo (fieldD j "cell_diag" Json.null) (fieldD j "ortho" (Json.bool false))
